@@ -2,6 +2,7 @@ import PhyVerif.Model.C14
 import PhyVerif.Model.C08
 import PhyVerif.Lemmas.C08
 import PhyVerif.Lemmas.C09
+import PhyVerif.Lemmas.C09b
 import PhyVerif.Lemmas.C14b
 /-! Proofs for the third part of C14: WHICH ids are blanked (the ids without spikes, computed from the spike
 assignment; composition with C08's `nan_idx`), cluster / spike depths and durations stated on that.
@@ -71,7 +72,7 @@ theorem getDepths_none_iff (fe : Option Feats) (ys : List Rat) (st : List Nat) :
   | none => simp
   | some f => by_cases h : f.feat0.length = st.length <;> simp [h]
 
-theorem spike_depth_features_eq (f : Feats) (ys : List Rat) (peaks st sc : List Nat)
+theorem spike_depth_features_eq_fold (f : Feats) (ys : List Rat) (peaks st sc : List Nat)
     (hl : f.feat0.length = st.length) (i : Nat) (hi : i < st.length) :
     (exportSpikeDepths (some f) ys peaks st sc).getD i none =
       (let w := (f.feat0.getD i []).map fun x => (max x 0) * (max x 0)
@@ -82,6 +83,27 @@ theorem spike_depth_features_eq (f : Feats) (ys : List Rat) (peaks st sc : List 
     simp [exportSpikeDepths, getDepths, hl]
   rw [e]
   refine ⟨C09.Lemmas.depths_eq f.feat0 f.cols ys st i (hl ▸ hi) hl.symm, ?_⟩
+  simp [depths, hl]
+
+/-- the feature-weighted depth of spike `i` as explicit finite sums over the `nloc` local channels, on the domain of the
+BATCH gathers of `get_depths` (model.py:1129-1134): hypotheses for EVERY spike -/
+theorem spike_depth_features_eq (f : Feats) (ys : List Rat) (peaks st sc : List Nat) (nloc : Nat)
+    (hl : f.feat0.length = st.length)
+    (hf : ∀ i, i < st.length → (f.feat0.getD i []).length = nloc)
+    (hst : ∀ i, i < st.length → st.getD i 0 < f.cols.length)
+    (hc : ∀ i, i < st.length → (f.cols.getD (st.getD i 0) []).length = nloc)
+    (hb : ∀ i, i < st.length → ∀ c ∈ f.cols.getD (st.getD i 0) [], c < ys.length)
+    (i : Nat) (hi : i < st.length) :
+    (exportSpikeDepths (some f) ys peaks st sc).getD i none =
+      (let w := fun k => max ((f.feat0.getD i []).getD k 0) 0 * max ((f.feat0.getD i []).getD k 0) 0
+       let y := fun k => ys.getD ((f.cols.getD (st.getD i 0) []).getD k 0) 0
+       if sumTo nloc w = 0 then none else some (sumTo nloc (fun k => y k * w k) / sumTo nloc w)) ∧
+    (exportSpikeDepths (some f) ys peaks st sc).length = st.length := by
+  have e : exportSpikeDepths (some f) ys peaks st sc = depths f.feat0 f.cols ys st := by
+    simp [exportSpikeDepths, getDepths, hl]
+  rw [e]
+  refine ⟨C09.Lemmas.depth_direct f.feat0 f.cols ys st i nloc (hl ▸ hi) hl.symm (hf i hi) (hst i hi) (hc i hi)
+    (hb i hi), ?_⟩
   simp [depths, hl]
 
 theorem exportSpikeDepths_length_fallback (fe : Option Feats) (ys : List Rat) (peaks st sc : List Nat)
